@@ -537,6 +537,23 @@ def q_variable_head(a):
                            "a value scope rooted at that value - only while a query part remains; a resolution error is an error"))
 
 
+def q_unresolved_value(a):
+    """what an unresolved entry records: the value reached, the reason given, the rest of the query"""
+    ex = a.exec(QCTX + "to_unresolved_value", {"format": lambda ex, av: ex.opq(), "must_use": mirexec.m_identity}, unroll=1, max_paths=200)
+    a.fns.append("rules::eval_context::to_unresolved_value")
+    cur, reason, query = ex.arg_env["_1"], ex.arg_env["_2"], ex.arg_env["_3"]
+    bad = []
+    for p in ex.paths:
+        r = p.ret
+        ok = (p.outcome == "return" and r is not None and r[0] == "variant" and r[2] == "UnResolved" and r[3] and r[3][0][0] == "struct"
+              and same(r[3][0][2].get("traversed_to"), cur)
+              and r[3][0][2].get("reason", ("",))[0] == "enum" and r[3][0][2]["reason"][2] == "1" and same(r[3][0][2]["reason"][3].get("Some"), reason))
+        bad.append("false" if ok else pc_term(p.pc))
+    _replay(a, a.discharge("query/to_unresolved_value", ex, bad,
+                           "an unresolved entry records exactly the value that was reached (`traversed_to`) and the reason it was given",
+                           witness=False))
+
+
 def replay_queries(a):
     exe = a.cli()
     if not exe:
@@ -553,5 +570,5 @@ def replay_queries(a):
     return a.replay_cases(exe, data, cases)
 
 
-SITES = {"C01": [q_accumulate, q_accumulate_map, q_retrieve_index, q_map_resolved, q_filter_delegate, q_dispatch, q_variable_head],
-         "C15": [q_variable_head]}
+SITES = {"C01": [q_accumulate, q_accumulate_map, q_retrieve_index, q_map_resolved, q_filter_delegate, q_dispatch, q_variable_head, q_unresolved_value],
+         "C15": [q_variable_head], "C10": [q_unresolved_value]}
